@@ -597,3 +597,34 @@ add('c19-solute-amounts-read-after-mixing', ['C19'], 'fire', 'Container.create_s
     "        result = Container(name, initial_contents=initial_contents[:-1])\n        contents = []",
     "        result = Container(name, initial_contents=initial_contents[:-1])\n        solvent0, result = Container.transfer(original_solvent, result, initial_contents[-1][1])\n        contents = []",
     'the stated amounts include what the solvent container held')
+
+# ------------------------------------------------------------------------------------------------ rules added after round 7
+add('c15-substances-kept-in-an-attribute', ['C15', 'C10', 'C04'], 'fire', 'Container.get_substances',
+    'return set(self.contents.keys())',
+    "if getattr(self, '_substances', None) is None:\n        self._substances = set(self.contents.keys())\n    return self._substances",
+    'the set travels with deepcopy: a copy whose contents changed answers with the old substances')
+add('c06-class-attribute-only-read', ['C06', 'C14', 'C18'], 'silent', 'Unit.convert_prefix_to_multiplier',
+    "if not isinstance(prefix, str):", "getattr(Unit, 'convert', None)\n    if not isinstance(prefix, str):",
+    'silent twin of the next: reading a class attribute is no state')
+add('c06-results-kept-on-the-class', ['C06', 'C14', 'C18'], 'fire', 'Unit.convert_prefix_to_multiplier',
+    "if not isinstance(prefix, str):", "Unit._seen = getattr(Unit, '_seen', {})\n    Unit._seen[prefix] = True\n    if not isinstance(prefix, str):",
+    'a method writes into a class-level container')
+add('c14-numerator-factor-keyed-by-unit', ['C14', 'C05', 'C03'], 'fire', 'Container.create_solution',
+    'a[index] = c * bottom - numpy.roll(identity, i) * convert_one(substance, numerator)',
+    'if numerator not in bottom_arrays:\n                bottom_arrays[numerator] = convert_one(substance, numerator)\n            a[index] = c * bottom - numpy.roll(identity, i) * bottom_arrays[numerator]',
+    'the factor of the first solute is used for every solute with the same numerator unit')
+add('c09-empty-wells-skipped-by-volume', ['C09', 'C15', 'C17'], 'fire', 'Recipe.bake',
+    'for substance in set.difference(before.get_substances(), after.get_substances()):\n                        step.substances_used.add(substance)',
+    'if not before.volume:\n                        continue\n                    for substance in set.difference(before.get_substances(), after.get_substances()):\n                        step.substances_used.add(substance)',
+    'a dry well of zero-volume solids is skipped when recording what a remove step discarded')
+add('c07-ufunc-writes-into-get', ['C07', 'C02', 'C01'], 'fire', 'PlateSlicer._transfer',
+    'frm_result, to_result = func(frm.get(), to.get())\n        frm.set(frm_result)\n        to.set(to_result)',
+    'frm_wells, to_wells = (frm.get(), to.get())\n        func(frm_wells, to_wells, out=(frm_wells, to_wells))',
+    'for lists of wells get() is a new array: the transfer is lost')
+add('c18-stock-checked-on-unrounded-product', ['C18', 'C03'], 'fire', 'Container._transfer',
+    'if volume_to_transfer > source_container.volume:', "if Unit.convert_to_storage(quantity_to_transfer, 'L') * 3 > source_container.volume:",
+    '3 x 0.1 mL against 0.3 mL is refused under mL and accepted under uL')
+add('c11-volume-recomputed-only-with-liquid', ['C11', 'C10', 'C17'], 'fire', 'Container.remove',
+    "for substance, value in new_container.contents.items():\n        substance_unit = 'U' if substance.is_enzyme() else config.moles_storage_unit\n        new_container.volume += Unit.convert_from(substance, value, substance_unit, config.volume_storage_unit)",
+    "if new_container.has_liquid():\n        for substance, value in new_container.contents.items():\n            substance_unit = 'U' if substance.is_enzyme() else config.moles_storage_unit\n            new_container.volume += Unit.convert_from(substance, value, substance_unit, config.volume_storage_unit)",
+    'a container of solids keeps volume 0')
